@@ -1001,7 +1001,16 @@ impl Sup {
                     d.extend_from_slice(&rel);
                     (Some(PathBuf::from(OsStr::from_bytes(path))), true, pct(&d))
                 }
-                None => (Some(PathBuf::from(OsStr::from_bytes(path))), false, pct(path)),
+                None => {
+                    // an ancestor of the sandbox root (realpath walks them): its spelling depends on where the sandbox lives
+                    let rb = self.cfg.root.as_os_str().as_bytes();
+                    let disp = if rb.starts_with(path) && path.len() > 1 && rb.get(path.len()) == Some(&b'/') {
+                        format!("$ANCESTOR{}", path.iter().filter(|&&c| c == b'/').count())
+                    } else {
+                        pct(path)
+                    };
+                    (Some(PathBuf::from(OsStr::from_bytes(path))), false, disp)
+                }
             }
         } else if dirfd == sys::AT_FDCWD {
             let full = self.cfg.cwd.join(OsStr::from_bytes(path));
